@@ -2216,8 +2216,8 @@ write_module_class(ostream &out, Object *obj) {
           }
           bool forward_all_nonconst = true;
           bool reverse_all_nonconst = true;
-          set<FunctionRemap *> forward_remaps;
-          set<FunctionRemap *> reverse_remaps;
+          FunctionRemapSet forward_remaps;
+          FunctionRemapSet reverse_remaps;
           for (FunctionRemap *remap : def._remaps) {
             std::string fname = remap->_cppfunc->get_simple_name();
             if (fname.compare(0, 3, "__r") == 0 && fname != "__rshift__") {
@@ -2287,8 +2287,8 @@ write_module_class(ostream &out, Object *obj) {
           out << "    return -1;\n";
           out << "  }\n\n";
 
-          set<FunctionRemap*> setattr_remaps;
-          set<FunctionRemap*> delattr_remaps;
+          FunctionRemapSet setattr_remaps;
+          FunctionRemapSet delattr_remaps;
 
           // This function handles both delattr and setattr.  Fish out the
           // remaps for both types.
@@ -2431,8 +2431,8 @@ write_module_class(ostream &out, Object *obj) {
           out << "    return -1;\n";
           out << "  }\n";
 
-          set<FunctionRemap*> setitem_remaps;
-          set<FunctionRemap*> delitem_remaps;
+          FunctionRemapSet setitem_remaps;
+          FunctionRemapSet delitem_remaps;
 
           // This function handles both delitem and setitem.  Fish out the
           // remaps for either one.
@@ -2499,8 +2499,8 @@ write_module_class(ostream &out, Object *obj) {
           out << "    return -1;\n";
           out << "  }\n\n";
 
-          set<FunctionRemap*> setitem_remaps;
-          set<FunctionRemap*> delitem_remaps;
+          FunctionRemapSet setitem_remaps;
+          FunctionRemapSet delitem_remaps;
 
           // This function handles both delitem and setitem.  Fish out the
           // remaps for either one.
@@ -2741,8 +2741,8 @@ write_module_class(ostream &out, Object *obj) {
           out << "    return Py_NewRef(Py_NotImplemented);\n";
           out << "  }\n";
 
-          set<FunctionRemap*> one_param_remaps;
-          set<FunctionRemap*> two_param_remaps;
+          FunctionRemapSet one_param_remaps;
+          FunctionRemapSet two_param_remaps;
 
           for (FunctionRemap *remap : def._remaps) {
             if (remap->_parameters.size() == 2) {
@@ -2963,11 +2963,11 @@ write_module_class(ostream &out, Object *obj) {
     out << "    return nullptr;\n";
     out << "  }\n\n";
 
-    std::set<FunctionRemap *> threeway_remaps;
+    FunctionRemapSet threeway_remaps;
     bool have_eq = false;
     bool have_ne = false;
     for (Function *func : obj->_methods) {
-      std::set<FunctionRemap*> remaps;
+      FunctionRemapSet remaps;
       if (!func) {
         continue;
       }
@@ -3028,7 +3028,7 @@ write_module_class(ostream &out, Object *obj) {
       else if (have_eq && !have_ne) {
         // Generate a not-equal function from the equal function.
         for (Function *func : obj->_methods) {
-          std::set<FunctionRemap*> remaps;
+          FunctionRemapSet remaps;
           if (!func) {
             continue;
           }
@@ -4126,9 +4126,9 @@ write_function_for_name(ostream &out, Object *obj,
                         bool coercion_allowed,
                         ArgsType args_type, int return_flags,
                         bool exclusive_fastcall) {
-  std::map<int, std::set<FunctionRemap *> > map_sets;
-  std::map<int, std::set<FunctionRemap *> >::iterator mii;
-  std::set<FunctionRemap *>::iterator sii;
+  std::map<int, FunctionRemapSet> map_sets;
+  std::map<int, FunctionRemapSet>::iterator mii;
+  FunctionRemapSet::iterator sii;
 
   bool has_this = false;
   Function::Remaps::const_iterator ri;
@@ -4380,7 +4380,7 @@ write_function_for_name(ostream &out, Object *obj,
       if (args_type == AT_keyword_args && max_args > 0) {
         strip_keyword_args = true;
 
-        std::set<FunctionRemap *>::iterator sii;
+        FunctionRemapSet::iterator sii;
         for (sii = mii->second.begin(); sii != mii->second.end(); ++sii) {
           remap = (*sii);
           size_t first_param = remap->_has_this ? 1u : 0u;
@@ -4568,8 +4568,8 @@ write_function_for_name(ostream &out, Object *obj,
  */
 void InterfaceMakerPythonNative::
 write_coerce_constructor(ostream &out, Object *obj, bool is_const) {
-  std::map<int, std::set<FunctionRemap *> > map_sets;
-  std::map<int, std::set<FunctionRemap *> >::iterator mii;
+  std::map<int, FunctionRemapSet> map_sets;
+  std::map<int, FunctionRemapSet>::iterator mii;
 
   int max_required_args = 0;
 
@@ -4800,18 +4800,19 @@ write_coerce_constructor(ostream &out, Object *obj, bool is_const) {
  * func(c=True, d=".")
  */
 int InterfaceMakerPythonNative::
-collapse_default_remaps(std::map<int, std::set<FunctionRemap *> > &map_sets,
+collapse_default_remaps(std::map<int, FunctionRemapSet> &map_sets,
                         int max_required_args) {
   if (map_sets.size() < 1) {
     return max_required_args;
   }
 
-  std::map<int, std::set<FunctionRemap *> >::reverse_iterator rmi, rmi_next;
+  std::map<int, FunctionRemapSet>::reverse_iterator rmi, rmi_next;
   rmi = map_sets.rbegin();
   rmi_next = rmi;
   for (++rmi_next; rmi_next != map_sets.rend();) {
     if (std::includes(rmi_next->second.begin(), rmi_next->second.end(),
-                      rmi->second.begin(), rmi->second.end())) {
+                      rmi->second.begin(), rmi->second.end(),
+                      FunctionRemapCompare())) {
 
       // rmi_next has a superset of the remaps in rmi, and we are going to
       // erase rmi_next, so put all the remaps in rmi.
@@ -4826,7 +4827,7 @@ collapse_default_remaps(std::map<int, std::set<FunctionRemap *> > &map_sets,
 
   // Now erase the other remap sets.  Reverse iterators are weird, we first
   // need to get forward iterators and decrement them by one.
-  std::map<int, std::set<FunctionRemap *> >::iterator erase_begin, erase_end;
+  std::map<int, FunctionRemapSet>::iterator erase_begin, erase_end;
   erase_begin = rmi.base();
   erase_end = map_sets.rbegin().base();
   --erase_begin;
@@ -4947,7 +4948,9 @@ bool RemapCompareLess(FunctionRemap *in1, FunctionRemap *in2) {
 
   // ok maybe something to do with return strength..
 
-  return false;
+  // Otherwise keep them in the order in which they were declared, so that the
+  // result does not depend on the order in which std::sort visits them.
+  return in1->_sequence < in2->_sequence;
 }
 
 /**
@@ -4994,7 +4997,7 @@ bool RemapCompareLess(FunctionRemap *in1, FunctionRemap *in2) {
  */
 bool InterfaceMakerPythonNative::
 write_function_forset(ostream &out,
-                      const std::set<FunctionRemap *> &remapsin,
+                      const FunctionRemapSet &remapsin,
                       int min_num_args, int max_num_args,
                       string &expected_params, int indent_level,
                       bool coercion_allowed, bool report_errors,
@@ -5007,7 +5010,7 @@ write_function_forset(ostream &out,
   }
 
   FunctionRemap *remap = nullptr;
-  std::set<FunctionRemap *>::iterator sii;
+  FunctionRemapSet::iterator sii;
 
   bool all_nonconst = false;
   bool always_returns = true;
@@ -7572,7 +7575,7 @@ write_getset(ostream &out, Object *obj, Property *property) {
           << "  }\n";
     }*/
 
-    std::set<FunctionRemap*> remaps;
+    FunctionRemapSet remaps;
 
     // Extract only the getters that take one integral argument.
     for (FunctionRemap *remap : property->_getter_remaps) {
@@ -7636,7 +7639,7 @@ write_getset(ostream &out, Object *obj, Property *property) {
             << "  }\n";
       }
 
-      std::set<FunctionRemap*> remaps;
+      FunctionRemapSet remaps;
 
       // Extract only the setters that take two arguments.
       for (FunctionRemap *remap : property->_setter_remaps) {
@@ -7667,7 +7670,7 @@ write_getset(ostream &out, Object *obj, Property *property) {
         out << "  }\n\n";
       }
 
-      std::set<FunctionRemap*> remaps;
+      FunctionRemapSet remaps;
       remaps.insert(property->_inserter->_remaps.begin(),
                     property->_inserter->_remaps.end());
 
@@ -7712,7 +7715,7 @@ write_getset(ostream &out, Object *obj, Property *property) {
     }
 
     if (property->_has_function != nullptr) {
-      std::set<FunctionRemap*> remaps;
+      FunctionRemapSet remaps;
       remaps.insert(property->_has_function->_remaps.begin(),
                     property->_has_function->_remaps.end());
 
@@ -7723,7 +7726,7 @@ write_getset(ostream &out, Object *obj, Property *property) {
       out << "  }\n";
     }
 
-    std::set<FunctionRemap*> remaps;
+    FunctionRemapSet remaps;
     // Extract only the getters that take one argument.  Fish out the ones
     // already taken by the sequence getter.
     for (FunctionRemap *remap : property->_getter_remaps) {
@@ -7764,7 +7767,7 @@ write_getset(ostream &out, Object *obj, Property *property) {
         out << "    PyObject *arg = key;\n";
 
         if (property->_has_function != nullptr) {
-          std::set<FunctionRemap*> remaps;
+          FunctionRemapSet remaps;
           remaps.insert(property->_has_function->_remaps.begin(),
                         property->_has_function->_remaps.end());
 
@@ -7775,7 +7778,7 @@ write_getset(ostream &out, Object *obj, Property *property) {
           out << "    }\n";
         }
 
-        std::set<FunctionRemap*> remaps;
+        FunctionRemapSet remaps;
         remaps.insert(property->_deleter->_remaps.begin(),
                       property->_deleter->_remaps.end());
 
@@ -7797,7 +7800,7 @@ write_getset(ostream &out, Object *obj, Property *property) {
             << "  }\n";
       }
 
-      std::set<FunctionRemap*> remaps;
+      FunctionRemapSet remaps;
       remaps.insert(property->_setter_remaps.begin(),
                     property->_setter_remaps.end());
 
@@ -7843,7 +7846,7 @@ write_getset(ostream &out, Object *obj, Property *property) {
         out << "  }\n";
       }
 
-      std::set<FunctionRemap*> remaps;
+      FunctionRemapSet remaps;
 
       // Extract only the getters that take one integral argument.
       for (FunctionRemap *remap : property->_getkey_function->_remaps) {
@@ -7991,7 +7994,7 @@ write_getset(ostream &out, Object *obj, Property *property) {
           << "  }\n";
     }
 
-    std::set<FunctionRemap*> remaps;
+    FunctionRemapSet remaps;
     remaps.insert(remap);
 
     string expected_params;
@@ -8034,7 +8037,7 @@ write_getset(ostream &out, Object *obj, Property *property) {
             << "  }\n";
       }
 
-      std::set<FunctionRemap*> remaps;
+      FunctionRemapSet remaps;
 
       // Extract only the setters that take one argument.
       for (FunctionRemap *remap : property->_setter_remaps) {
